@@ -1,5 +1,6 @@
 import GapicModel.Model.Emit
 import GapicModel.Model.NamingOptions
+import GapicModel.Lemmas.RegexCaps
 /-
 C11 — the emitted file set is well-formed and placed by package-derived naming.
 Theorems about the segment-wise model of `_get_filename` / `_render_template`, instantiated on the
@@ -304,5 +305,147 @@ theorem naming_examples :
     versionedModule ⟨"acme".toList, "lib".toList, []⟩ = "lib".toList := by decide
 
 end OptionsNaming
+
+
+/-! ## The inferred package root is made of clean path segments — for EVERY proto package -/
+
+section NamingClean
+open GapicModel.Regex GapicModel.Model.NamingOptions
+
+def badName : List Char := ['/', '.']
+def badNs : List Char := ['/']
+
+/-- finite facts about the two pinned patterns (`pattern` and `pattern + version`): the `name` group (3) lies
+on every path, and the bodies of `namespace` (2), `name` (3) and `version` (4 after concatenation) accept no
+`/` (and no `.` for name and version) and, for name and version, consume at least one character -/
+theorem pattern_facts :
+    (mustCap 3 Pinned.namingPattern.re = true ∧ mustCap 3 fullPattern = true ∧ mustCap 4 fullPattern = true) ∧
+    (∀ re ∈ [Pinned.namingPattern.re, fullPattern], ∀ p ∈ groupsOf re,
+       (p.1 = 3 → safeRe badName p.2 = true ∧ consumesOne p.2 = true) ∧
+       (p.1 = 2 → safeRe badNs p.2 = true) ∧
+       (p.1 = 4 → safeRe badName p.2 = true ∧ consumesOne p.2 = true)) := by decide
+
+theorem groups_clean (re : Re) (hre : re ∈ [Pinned.namingPattern.re, fullPattern]) (pkg : List Char) (res : MatchRes)
+    (h : pySearch Pinned.classTables re pkg = some res) :
+    ((St.group? res.caps 3).getD [] ≠ [] ∧ ∀ c ∈ (St.group? res.caps 3).getD [], c ∉ badName) ∧
+    (∀ c ∈ (St.group? res.caps 2).getD [], c ∉ badNs) ∧
+    (∀ c ∈ (St.group? res.caps 4).getD [], c ∉ badName) := by
+  have hm3 : mustCap 3 re = true := by
+    simp only [List.mem_cons, List.mem_nil_iff, or_false] at hre
+    rcases hre with rfl | rfl
+    · exact pattern_facts.1.1
+    · exact pattern_facts.1.2.1
+  have hf := pattern_facts.2 re hre
+  refine ⟨?_, ?_, ?_⟩
+  · have h3 := search_group _ re pkg res h 3
+    have hsome := h3.1 hm3
+    obtain ⟨w, hw⟩ := Option.isSome_iff_exists.mp hsome
+    obtain ⟨body, hb, hmt⟩ := h3.2 w hw
+    have hfb := (hf (3, body) hb).1 rfl
+    rw [hw]
+    exact ⟨Matches.nonempty hmt hfb.2, Matches.safe hmt hfb.1⟩
+  · have h2 := search_group _ re pkg res h 2
+    cases hw : St.group? res.caps 2 with
+    | none => simp
+    | some w =>
+      obtain ⟨body, hb, hmt⟩ := h2.2 w hw
+      exact Matches.safe hmt ((hf (2, body) hb).2.1 rfl)
+  · have h4 := search_group _ re pkg res h 4
+    cases hw : St.group? res.caps 4 with
+    | none => simp
+    | some w =>
+      obtain ⟨body, hb, hmt⟩ := h4.2 w hw
+      exact Matches.safe hmt ((hf (4, body) hb).2.2 rfl).1
+
+/-- **Whatever package the name is inferred from**, the inferred name is non-empty and has no `/` or `.`,
+the namespace text has no `/`, the version has no `/` or `.` -/
+theorem infer_clean (pkg : List Char) (i : Inferred) (h : infer pkg = some i) :
+    (i.name ≠ [] ∧ ∀ c ∈ i.name, c ∉ badName) ∧ (∀ c ∈ i.ns, c ∉ badNs) ∧ (∀ c ∈ i.version, c ∉ badName) := by
+  simp only [infer] at h
+  split at h
+  · simp at h
+  · rename_i res hs
+    simp only [Option.some.injEq] at h
+    have hre : (if (pySearch Pinned.classTables Pinned.namingVersion.re pkg).isSome = true then fullPattern else Pinned.namingPattern.re)
+        ∈ [Pinned.namingPattern.re, fullPattern] := by
+      split <;> simp
+    have hg := groups_clean _ hre pkg res hs
+    subst h
+    refine ⟨hg.1, hg.2.1, ?_⟩
+    simp only
+    split
+    · exact hg.2.2
+    · simp
+
+theorem splitOn_mem (sep : Char) : ∀ (s seg : List Char), seg ∈ splitOn sep s → ∀ c ∈ seg, c ∈ s ∧ c ≠ sep := by
+  intro s
+  induction s with
+  | nil => intro seg h c hc; simp [splitOn] at h; subst h; simp at hc
+  | cons d ds ih =>
+    intro seg h c hc
+    simp only [splitOn] at h
+    cases hrec : splitOn sep ds with
+    | nil => rw [hrec] at h; simp at h; subst h; simp at hc
+    | cons x xs =>
+      rw [hrec] at h
+      simp only at h
+      split at h
+      · rcases List.mem_cons.mp h with h | h
+        · subst h; simp at hc
+        · have := ih seg (by rw [hrec]; exact h) c hc
+          exact ⟨List.mem_cons_of_mem _ this.1, this.2⟩
+      · rename_i hne
+        rcases List.mem_cons.mp h with h | h
+        · subst h
+          rcases List.mem_cons.mp hc with hc | hc
+          · subst hc; exact ⟨by simp, hne⟩
+          · have := ih x (by rw [hrec]; simp) c hc
+            exact ⟨List.mem_cons_of_mem _ this.1, this.2⟩
+        · have := ih seg (by rw [hrec]; exact List.mem_cons_of_mem _ h) c hc
+          exact ⟨List.mem_cons_of_mem _ this.1, this.2⟩
+
+/-- **The package root is made of clean segments**: for every proto package from which `Naming.build` infers a
+naming, each namespace directory, the module name and the versioned module name are non-empty, contain no `/`
+and are neither `.` nor `..` — the hypotheses `CleanCtx` makes about the naming are consequences of the code's
+own regular expressions, not assumptions about protoc. -/
+theorem inferred_segments_clean (pkg : List Char) (i : Inferred) (h : infer pkg = some i) :
+    (∀ s ∈ nsSegments i, CleanSeg s) ∧ CleanSeg i.name ∧ CleanSeg (versionedModule i) := by
+  obtain ⟨⟨hne, hname⟩, hns, hver⟩ := infer_clean pkg i h
+  have nodot_clean : ∀ s : List Char, s ≠ [] → (∀ c ∈ s, c ≠ '/' ∧ c ≠ '.') → CleanSeg s := by
+    intro s hs hc
+    refine ⟨hs, fun hm => (hc _ hm).1 rfl, ?_, ?_⟩
+    · intro he; subst he; exact (hc '.' (by simp)).2 rfl
+    · intro he; subst he; exact (hc '.' (by simp)).2 rfl
+  have hname' : ∀ c ∈ i.name, c ≠ '/' ∧ c ≠ '.' := by
+    intro c hc; have := hname c hc; simp [badName] at this; exact ⟨this.1, this.2⟩
+  have hver' : ∀ c ∈ i.version, c ≠ '/' ∧ c ≠ '.' := by
+    intro c hc; have := hver c hc; simp [badName] at this; exact ⟨this.1, this.2⟩
+  refine ⟨?_, nodot_clean _ hne hname', ?_⟩
+  · intro s hs
+    simp only [nsSegments, List.mem_filter, decide_eq_true_eq] at hs
+    apply nodot_clean s hs.2
+    intro c hc
+    have := splitOn_mem '.' i.ns s hs.1 c hc
+    have hb := hns c this.1
+    simp [badNs] at hb
+    exact ⟨hb, this.2⟩
+  · simp only [versionedModule]
+    split
+    · exact nodot_clean _ hne hname'
+    · apply nodot_clean
+      · simp
+      · intro c hc
+        rcases List.mem_append.mp hc with hc | hc
+        · exact hname' c hc
+        · rcases List.mem_cons.mp hc with hc | hc
+          · subst hc; decide
+          · exact hver' c hc
+
+/-- the theorem is about packages that do occur -/
+example : ∃ i, infer ['a','c','m','e','.','l','i','b','.','v','1'] = some i ∧ nsSegments i = [['a','c','m','e']] ∧
+    versionedModule i = ['l','i','b','_','v','1'] :=
+  ⟨⟨['a','c','m','e'], ['l','i','b'], ['v','1']⟩, by decide, by decide, by decide⟩
+
+end NamingClean
 
 end GapicModel.Props.C11
